@@ -352,6 +352,12 @@ def gen_command(rng, info, text_opts, kinds):
         else:
             loc = rng.choice(["9999", "nolabel", "0"])
         b = info.resolve(loc)
+        if loc.isdigit() and rng.random() < 0.25:
+            # the same line named with its file (D60: `break <path>:<n>` never found its line), or with another file
+            if rng.random() < 0.8:
+                loc = "<string>:" + loc
+            else:
+                loc, b = "nosuch.hera:" + loc, None
         if kind == "break":
             # a label after the last instruction names no instruction: `break` refuses it (fix D50)
             return "%s %s" % (rng.choice(["break", "b"]), loc), ("(CBreak %d)" % b if b is not None and b < info.n else "CMutNop")
